@@ -3,6 +3,7 @@ CONSTANTS
   Obj = {1, 2}
   Zero = 0
   EmitEdges = FALSE
+  Mutant = "none"
   Annot = {1, 2}
   Times = {0, 1, 2}
   Labels = {0, 1, 2}
